@@ -280,8 +280,8 @@ MatOp(s, i, q) ==
       allNQ == [j \in 1..Len(insPresent) |-> <<insPresent[j][1], TRUE, nq>>] \o outsNQ
       ac == m.a
       \* ---- min/max algorithm
-      isW(j) == k \in WeightKinds /\ sig[j] = "w"
-      isB(j) == sig[j] = "b?"
+      isW(j) == k \in WeightKinds /\ j <= Len(sig) /\ sig[j] = "w"
+      isB(j) == j <= Len(sig) /\ sig[j] = "b?"
       actPos == CHOOSE j \in 1..Len(sig) : sig[j] \in {"act", "x"}      \* first activation-like operand
       wPos == IF \E j \in 1..Len(sig) : sig[j] = "w" THEN CHOOSE j \in 1..Len(sig) : sig[j] = "w" ELSE 0
       outStatPar(t) == PTerm(stat(t), ac)
@@ -316,12 +316,13 @@ MatOp(s, i, q) ==
      ELSE mm
 
 \* virtual INPUT / OUTPUT operators of subgraph s (op id -1)
+\* (non-float graph inputs / outputs, e.g. lookup indices, are ignored tensors: never quantised)
 MatIO(s, q) ==
   [k \in 1..Len(G[s].gins) |-> <<G[s].gins[k], FALSE,
-      IF inmode.m = "SRQ" THEN Entry(-1, "ADQ", PTerm(q[G[s].gins[k]+1], inmode.a)) ELSE Entry(-1, "NQ", NoPar)>>]
+      IF inmode.m = "SRQ" /\ ~IsAux(s, G[s].gins[k]) THEN Entry(-1, "ADQ", PTerm(q[G[s].gins[k]+1], inmode.a)) ELSE Entry(-1, "NQ", NoPar)>>]
   \o
   [k \in 1..Len(G[s].gouts) |-> <<G[s].gouts[k], TRUE,
-      IF outmode.m = "SRQ" THEN Entry(-1, "AQ", PTerm(q[G[s].gouts[k]+1], outmode.a)) ELSE Entry(-1, "NQ", NoPar)>>]
+      IF outmode.m = "SRQ" /\ ~IsAux(s, G[s].gouts[k]) THEN Entry(-1, "AQ", PTerm(q[G[s].gouts[k]+1], outmode.a)) ELSE Entry(-1, "NQ", NoPar)>>]
 
 RECURSIVE ApplyMat(_, _, _, _, _)
 ApplyMat(s, L, p, c, ord) ==
@@ -567,6 +568,7 @@ GX == [s \in 1..NSub |->
         [ops |-> [i \in 1..NOpsOf(s) |-> [kind |-> G[s].ops[i].kind, ins |-> G[s].ops[i].ins, outs |-> G[s].ops[i].outs,
                                            sig |-> <<G[s].ops[i].kind, i>>]],
          trole |-> G[s].trole, gins |-> G[s].gins, gouts |-> G[s].gouts,
+         siginpos |-> [k \in 1..Len(G[s].gins) |-> k], sigoutpos |-> [k \in 1..Len(G[s].gouts) |-> k],
          nm |-> [t \in 1..NT0(s) |-> <<t-1>>], shp |-> G[s].tsh,
          data |-> [t \in 1..NT0(s) |-> <<"orig", BufOf(s, t-1)>>],
          dt0 |-> [t \in 1..NT0(s) |-> IF Role(s, t-1) = "aux" THEN "i32" ELSE "f32"]]]
